@@ -43,6 +43,10 @@ type Replay struct {
 	Range []int64 `json:"range,omitempty"` // [lo, hi]: SELECT ... RANGE ["lo":"hi"] WHERE e (the filter iterator with an explicit time range)
 	Tail  int     `json:"tail,omitempty"`  // > 0: SELECT ... WHERE e POSITION tail OFFSET -k (k = min(Tail, matching events)): backward through the filter iterator
 	Via   string  `json:"via,omitempty"`   // "rpc": the events are written through the RPC client, their fields as the text name=value,... (field.NewFieldsFromKVString)
+	Off   int     `json:"off,omitempty"`   // request Offset k > 0: the first k matching events are stepped over
+	Lim   int     `json:"lim,omitempty"`   // request Limit n > 0 (default 10000): at most n events are delivered
+	Page  int     `json:"page,omitempty"`  // > 0: the result is read in pages of that many events (NextQueryRequest), the pages are concatenated
+	Twice bool    `json:"twice,omitempty"` // the same request is sent a second time: the answer must be the same
 	// reltime: clock-dependent ts literals (relative "-1.5h", constants minute/hour/day/week); the events are placed at run time
 	RelLits []string `json:"rellits,omitempty"`
 	RelEvs  []RelEv  `json:"relevs,omitempty"`
@@ -623,17 +627,68 @@ func queryCase(st *store, rp Replay) (*Case, error) {
 	if tail > 0 {
 		q += fmt.Sprintf(" [request: Pos=tail Offset=-%d]", tail) // for the reports only
 	}
+	if rp.Off > 0 || rp.Lim > 0 {
+		q += fmt.Sprintf(" [request: Offset=%d Limit=%d]", rp.Off, rp.Lim)
+	}
+	if rp.Page > 0 {
+		q += fmt.Sprintf(" [read in pages of %d]", rp.Page)
+	}
 	var res *api.QueryResult
 	var qerr error
-	if guarded(func() {
+	ask := func() (*api.QueryResult, error) {
 		req := &api.QueryRequest{Query: stmt, Limit: 10000}
 		if tail > 0 {
 			req.Pos, req.Offset = "tail", -tail
 		}
-		res, qerr = st.srv.Querier.Query(context.Background(), req)
-	}) {
+		if rp.Off > 0 {
+			req.Offset = rp.Off
+		}
+		if rp.Lim > 0 {
+			req.Limit = rp.Lim
+		}
+		if rp.Page <= 0 {
+			return st.srv.Querier.Query(context.Background(), req)
+		}
+		// paging: every page continues where the previous one ended
+		req.Limit = rp.Page
+		all := &api.QueryResult{}
+		for n := 0; n < 10000; n++ {
+			r1, err := st.srv.Querier.Query(context.Background(), req)
+			if r1 != nil {
+				all.Events = append(all.Events, r1.Events...)
+			}
+			if err != nil && err != io.EOF {
+				return all, err
+			}
+			if r1 == nil || len(r1.Events) == 0 {
+				return all, nil
+			}
+			nx := r1.NextQueryRequest
+			req = &nx
+			req.Limit = rp.Page
+		}
+		return all, fmt.Errorf("paging does not end")
+	}
+	if guarded(func() { res, qerr = ask() }) {
 		fail("query-panic", q)
 		qerr = fmt.Errorf("panic")
+	}
+	if rp.Twice && qerr == nil || rp.Twice && qerr == io.EOF {
+		var res2 *api.QueryResult
+		var qerr2 error
+		if guarded(func() { res2, qerr2 = ask() }) {
+			fail("query-panic", q+" (second time)")
+		} else if (qerr2 == nil || qerr2 == io.EOF) && res != nil && res2 != nil {
+			same := len(res.Events) == len(res2.Events)
+			for i := 0; same && i < len(res.Events); i++ {
+				same = res.Events[i].Timestamp == res2.Events[i].Timestamp && res.Events[i].Message == res2.Events[i].Message && res.Events[i].Fields == res2.Events[i].Fields
+			}
+			if !same {
+				fail("query-not-repeatable", fmt.Sprintf("%s: the same request a second time returns %d events, the first time %d (or other events)", q, len(res2.Events), len(res.Events)))
+			}
+		} else if qerr2 != nil && qerr2 != io.EOF {
+			fail("query-not-repeatable", fmt.Sprintf("%s: the same request fails the second time: %v", q, qerr2))
+		}
 	}
 	if qerr == io.EOF {
 		qerr = nil
@@ -674,6 +729,16 @@ func queryCase(st *store, rp Replay) (*Case, error) {
 			}
 			if tail > 0 {
 				want = want[len(want)-tail:]
+			}
+			if rp.Off > 0 {
+				if rp.Off >= len(want) {
+					want = nil
+				} else {
+					want = want[rp.Off:]
+				}
+			}
+			if rp.Lim > 0 && len(want) > rp.Lim {
+				want = want[:rp.Lim]
 			}
 			if fmt.Sprint(got) != fmt.Sprint(want) {
 				g2, w2 := append([]int{}, got...), append([]int{}, want...)
@@ -741,6 +806,19 @@ func queryCase(st *store, rp Replay) (*Case, error) {
 	case tail > 0:
 		cs.Coq = GApp("KQueryTail", GStr(rp.Text), tab, gEvents(rp.Events), GNat(tail), ret)
 		cs.Tags = append(cs.Tags, "query:tail-offset")
+	case rp.Off > 0 || rp.Lim > 0:
+		lim := rp.Lim
+		if lim <= 0 {
+			lim = 10000
+		}
+		cs.Coq = GApp("KQuerySlice", GStr(rp.Text), tab, gEvents(rp.Events), GNat(rp.Off), GNat(lim), ret)
+		cs.Tags = append(cs.Tags, "query:offset-limit")
+	}
+	if rp.Page > 0 {
+		cs.Tags = append(cs.Tags, "query:paged")
+	}
+	if rp.Twice {
+		cs.Tags = append(cs.Tags, "query:twice")
 	}
 	if rp.Via == "rpc" {
 		cs.Tags = append(cs.Tags, "query:rpc-written")
@@ -961,6 +1039,14 @@ func main() {
 				return err
 			}
 		}
+		// ---- edge corpus: the boundaries of the comparisons (deterministic, on every check)
+		ew, eq := edgeCorpus()
+		for _, rp := range append(ew, eq...) {
+			if err := run(rp); err != nil {
+				return err
+			}
+		}
+		c.Note("edge corpus", fmt.Sprintf("%d where cases, %d queries", len(ew), len(eq)))
 		// ---- reltime: ts literals that depend on the clock (relative -<n>(m|h|d), constants minute/hour/day/week)
 		nrel := 0
 		for _, rp := range relCases() {
@@ -1086,7 +1172,17 @@ func main() {
 			case r.Chance(1, 4):
 				// from the tail backward over k matching events
 				rp.Tail = r.PickInt(1, 2, 3, 5, 1000)
+			case r.Chance(1, 4):
+				// a window of the filtered result: Offset 0..(one beyond the end), Limit 1..(beyond the end)
+				rp.Off = r.PickInt(0, 1, 2, 5, len(evs)-1, len(evs), len(evs)+1)
+				rp.Lim = r.PickInt(0, 1, 2, 3, len(evs), len(evs)+1)
+				if rp.Off == 0 && rp.Lim == 0 {
+					rp.Lim = 1
+				}
+			case r.Chance(1, 4):
+				rp.Page = r.PickInt(1, 2, 3, 7)
 			}
+			rp.Twice = r.Chance(1, 6)
 			if err := run(rp); err != nil {
 				return err
 			}
